@@ -10,10 +10,11 @@ matcher used by try_files.
 All theorems quantify over ALL byte strings (NUL, `\`, `%`, invalid UTF-8 …), all
 configurations and all filesystems `fs : Bytes → Node`; nothing is bounded.  Containment is
 lexical (`Under`): symlinks, `net/http`'s URL decoding and `http.ServeContent` are outside the
-model.  Two clauses are violated by the unchanged tree; their negations are proved in
-`Witness.lean` and the provable parts are the `_partial` theorems below.
+model.  `Witness.lean` holds the concrete counter-examples: the old listing filter, the need for
+the hypothesis of `listing_omits_hidden`, and glob syntax surviving `globSafeRepl`.
 -/
 import CaddyModel.C07.MatchLemmas
+import CaddyModel.C07.ListingLemmas
 import CaddyModel.C07.GlobLemmas
 import CaddyModel.C07.GlobFuel
 import CaddyModel.C07.Witness
@@ -113,7 +114,7 @@ theorem served_path_under_root (fs : FS) (c : Cfg) (path orig p : Bytes) (id : N
     names are the directory's entries filtered by `listingNames` -/
 theorem listed_dir_under_root (fs : FS) (c : Cfg) (path orig p : Bytes) (ns : List Bytes) (hfs : fs [] = .missing)
     (h : (serve fs c path orig).1 = .listing p ns) :
-    UnderS c.rootC p ∧ c.hidden p = false ∧ ∃ es, fs p = .dir es ∧ ns = listingNames c es := by
+    UnderS c.rootC p ∧ c.hidden p = false ∧ ∃ es, fs p = .dir es ∧ ns = listingNames c path es := by
   have := serve_justified fs c path orig hfs
   rw [h] at this
   exact this
@@ -122,42 +123,63 @@ example : (serve wFS wCfg (str "/a.txt") (str "/a.txt")).1 = .file (str "/srv/a.
 example : (serve wFS wCfg (str "/sub/..\\/../../.././a.txt") (str "/x")).1 = .file (str "/srv/a.txt") 1 := by decide
 example : wFS [] = .missing := by decide
 
-/-
-**listing_omits_hidden** — full statement (violated, see `Witness.listing_omits_hidden_full_fails`):
-
-    (serve fs c path orig).1 = .listing dir names → fs dir = .dir es → e ∈ es →
-      entryHiddenByPath c dir e = true → e.name ∉ names ∧ e.name ++ [slash] ∉ names
--/
-
-/-- **listing_omits_hidden_partial.** Every listed name is an entry that `fileHidden` does not
-    hide *as a bare name* (resolved against the working directory); hence every entry for which
-    the bare-name check and the full-path check agree (`hiddenChecksAgree`, decidable) and that
-    is hidden by its path is omitted. -/
-def hiddenChecksAgree (c : Cfg) (dir : Bytes) (e : Entry) : Bool := c.hidden e.name == entryHiddenByPath c dir e
-
-theorem listing_omits_hidden_partial (fs : FS) (c : Cfg) (path orig dir : Bytes) (names : List Bytes)
-    (hfs : fs [] = .missing) (h : (serve fs c path orig).1 = .listing dir names) :
+/-- **listing_omits_hidden.** (code as of /repo cfacd08) Every name a listing shows belongs to an
+    entry of the listed directory that is hidden neither as a bare name nor by its path
+    `dir/name`.  Hypotheses, all explicit: the empty name does not exist; the listed directory is
+    the file the request itself mapped to (`hdir` — it fails only when an index name is itself a
+    directory, see `Witness.listing_hypothesis_needed`; the harness checks it per case); entry
+    names are real names (`Normal`: non-empty, no `/`, not `.`/`..`, as `ReadDir` returns them). -/
+theorem listing_omits_hidden (fs : FS) (c : Cfg) (path orig dir : Bytes) (names : List Bytes)
+    (hfs : fs [] = .missing) (h : (serve fs c path orig).1 = .listing dir names)
+    (hdir : dir = requestFile c path) :
     ∃ es, fs dir = .dir es ∧
-      (∀ n ∈ names, ∃ e ∈ es, c.hidden e.name = false ∧ n = (if e.isDir then e.name ++ [slash] else e.name)) ∧
-      (∀ e ∈ es, hiddenChecksAgree c dir e = true → entryHiddenByPath c dir e = true →
-        ∀ n ∈ names, ∀ e' ∈ es, n = (if e'.isDir then e'.name ++ [slash] else e'.name) → c.hidden e'.name = false →
-          e'.name ≠ e.name) := by
-  obtain ⟨_, _, es, hes, hn⟩ := listed_dir_under_root fs c path orig dir names hfs h
-  refine ⟨es, hes, ?_, ?_⟩
-  · intro n hmem
-    rw [hn] at hmem
-    simp only [listingNames, List.mem_map, List.mem_filter] at hmem
-    obtain ⟨e, ⟨he, hh⟩, rfl⟩ := hmem
-    exact ⟨e, he, by simpa using hh, rfl⟩
-  · intro e _ hag hhid n _ e' _ _ hnh heq
-    simp only [hiddenChecksAgree, beq_iff_eq] at hag
-    rw [hhid, ← heq, hnh] at hag
-    cases hag
+      ∀ n ∈ names, ∃ e ∈ es, n = showEntry e ∧ c.hidden e.name = false ∧
+        (Normal e.name → entryHiddenByPath c dir e = false) := by
+  obtain ⟨hu, _, es, hes, hn⟩ := listed_dir_under_root fs c path orig dir names hfs h
+  have hne : requestFile c path ≠ [] := by
+    rw [← hdir]
+    rcases hu with hu | ⟨q, _, e⟩
+    · exact under_ne_nil hu
+    · rw [e]; simp
+  refine ⟨es, hes, ?_⟩
+  intro n hmem
+  rw [hn] at hmem
+  simp only [listingNames, List.mem_map, List.mem_filter] at hmem
+  obtain ⟨e, ⟨he, hh⟩, rfl⟩ := hmem
+  simp only [Bool.not_eq_true', Bool.or_eq_false_iff] at hh
+  refine ⟨e, he, rfl, hh.1, ?_⟩
+  intro hnorm
+  unfold entryHiddenByPath
+  rw [hdir, ← entry_hidden_eq c path e.name hnorm hne]
+  exact hh.2
 
--- a component rule (`secret.txt`) does filter the listing
-example : (serve wFS { wCfg with hide := [str "secret.txt"] } (str "/") (str "/")).1
+/-- … and conversely the listing is *exactly* the entries hidden neither way (nothing else is
+    dropped), when all entry names are real names -/
+theorem listing_is_exactly_the_unhidden_entries (fs : FS) (c : Cfg) (path orig dir : Bytes) (names : List Bytes)
+    (hfs : fs [] = .missing) (h : (serve fs c path orig).1 = .listing dir names)
+    (hdir : dir = requestFile c path) :
+    ∃ es, fs dir = .dir es ∧ ((∀ e ∈ es, Normal e.name) →
+      names = (es.filter fun e => !(c.hidden e.name || entryHiddenByPath c dir e)).map showEntry) := by
+  obtain ⟨hu, _, es, hes, hn⟩ := listed_dir_under_root fs c path orig dir names hfs h
+  have hne : requestFile c path ≠ [] := by
+    rw [← hdir]
+    rcases hu with hu | ⟨q, _, e⟩
+    · exact under_ne_nil hu
+    · rw [e]; simp
+  refine ⟨es, hes, fun hN => ?_⟩
+  rw [hn, listingNames]
+  congr 1
+  apply List.filter_congr
+  intro e he
+  unfold entryHiddenByPath
+  rw [hdir, entry_hidden_eq c path e.name (hN e he) hne]
+
+-- a path rule and a component rule both filter the listing now
+example : (serve wFS wCfg (str "/") (str "/")).1 = .listing (str "/srv") [str "a.txt"] := by decide
+example : (serve wFS { wCfg with hide := [str "secret.txt"] } (str "//./x/..") (str "/")).1
     = .listing (str "/srv") [str "a.txt"] := by decide
-example : hiddenChecksAgree { wCfg with hide := [str "secret.txt"] } (str "/srv") ⟨str "secret.txt", false⟩ = true := by decide
+example : str "/srv" = requestFile wCfg (str "/") ∧ wFS [] = .missing ∧ Normal (str "secret.txt") := by decide
+example : entryHiddenByPath wCfg (str "/srv") ⟨str "secret.txt", false⟩ = true := by decide
 
 /-- **otherwise_not_found_or_passthru.** On a filesystem that answers every name with "missing",
     a file or a directory, a request ends in exactly one of: the bytes of a non-hidden file below
